@@ -234,7 +234,9 @@ type c02Result struct {
 }
 
 func (c *c02Ctx) plan(f c02Fault) link.Plan {
-	p := link.Plan{Cut: link.NoCut(), FailAfter: -1, Coupled: true}
+	// the sessions of these scenarios need a few thousand link operations: a station that is still calling
+	// Read/Write after 150 000 is spinning (reported as no-termination)
+	p := link.Plan{Cut: link.NoCut(), FailAfter: -1, Coupled: true, MaxOps: 150000}
 	switch f.Kind {
 	case "cut":
 		p.Cut[f.Dir] = f.K
